@@ -27,6 +27,8 @@ def sites_of(body):
                 what = n.split('::')[2].split('<')[0] + '::' + n.split('::')[-1]
                 targs = t['callee'].get('targs') or []
                 what += '<' + (targs[0] if targs else '?')[:60] + '>'
+                if 'result::Result' in n and len(targs) > 1:
+                    what += ';E=' + targs[1][:60]      # the error type: `PoisonError<..>` means poison only, whatever wraps the lock call
             elif PANICKING.search(n):
                 kind, what = 'panic', n.split('::')[-1]
             elif RANGE_INDEX.search(n):
